@@ -195,6 +195,9 @@ def gen_case(rng, k, thorough=False):
                 ngauss=int(rng.integers(1, 7)), cia=[cia['pair']] if cia else [])
     # quota: in half of the cases with CIA it is added to the model BEFORE the molecular absorption
     spec['cia_first'] = bool(cia is not None and k % 4 < 2)
+    # quota: one of several molecules is switched off with the global option `deactive_molecules`
+    if len(names) >= 2 and k % 9 == 5:
+        spec['deactive'] = [names[-1]]
     return dict(family=family, tkind=tkind, regime=regime, tclass=tclass, spec=spec, wn=wn, tables=tables,
                 weights=w, cia=cia, multigrid=bool(ends), grid_ends=ends)
 
@@ -291,6 +294,8 @@ def judge(ctx, c, case, small, ok, ox, degenerate, kp=''):
     ctx.bucket('regime:' + str(c.get('regime')))
     ctx.bucket('ng:' + ('1' if ng == 1 else ('2-5' if ng <= 5 else ('6-12' if ng <= 12 else '13-20'))))
     ctx.bucket('cia:' + str(bool(c.get('cia'))) + (':before-absorption' if spec.get('cia_first') else ''))
+    if spec.get('deactive'):
+        ctx.bucket('deactive_molecules:set')
     ctx.bucket('grids:' + ('per-molecule' if c.get('multigrid') else 'shared'))
     for e_ in c.get('grid_ends') or []:
         ctx.bucket('table-grid-end:' + str(e_))
